@@ -98,6 +98,9 @@ func (g *jsonGen) value(d int) string {
 		return "null"
 	case 7, 8:
 		n := r.Intn(4)
+		if r.Intn(6) == 0 {
+			n = r.Intn(10)
+		}
 		var sb strings.Builder
 		sb.WriteString("[")
 		for i := 0; i < n; i++ {
@@ -110,6 +113,9 @@ func (g *jsonGen) value(d int) string {
 		return sb.String()
 	default:
 		n := r.Intn(4)
+		if r.Intn(6) == 0 {
+			n = r.Intn(10)
+		}
 		var sb strings.Builder
 		sb.WriteString("{")
 		var keys []string
